@@ -1,6 +1,7 @@
 package gen
 
 import (
+	"math"
 	"pgregory.net/rapid"
 
 	"verif/harness/lang"
@@ -53,6 +54,77 @@ func Foldable(e lang.Expr) bool {
 		}
 	}
 	return false
+}
+
+// constValue computes what the optimizer would fold e to: ok is false when e
+// is not foldable, divides by zero, or leaves the inline range 0..65534 on
+// the way (then the optimizer leaves the operation alone).
+func constValue(e lang.Expr) (int64, bool) {
+	switch x := e.(type) {
+	case lang.Lit:
+		if x.V.K == lang.KInt && x.V.I >= 0 && x.V.I <= 65534 {
+			return x.V.I, true
+		}
+	case lang.Paren:
+		return constValue(x.X)
+	case lang.Binary:
+		l, ok1 := constValue(x.L)
+		r, ok2 := constValue(x.R)
+		if !ok1 || !ok2 {
+			return 0, false
+		}
+		var v int64
+		switch x.Op {
+		case "+":
+			v = l + r
+		case "-":
+			v = l - r
+		case "*":
+			v = l * r
+		case "/":
+			if r == 0 {
+				return 0, false
+			}
+			v = l / r
+		default:
+			return 0, false
+		}
+		if v < 0 || v > 65534 {
+			return 0, false
+		}
+		return v, true
+	}
+	return 0, false
+}
+
+// FoldsToSquare reports whether the operand of a square root is a constant
+// the optimizer folds AND a perfect square: the shape of the open finding
+// C03-sqrt-fold (the root becomes an INTEGER). Roots of other constants are
+// not part of that finding and are generated.
+func FoldsToSquare(e lang.Expr) bool {
+	if u, ok := e.(lang.Unary); ok && u.Op == "√" {
+		return Foldable(u) // a root of a root: keep away (the inner one may fold)
+	}
+	v, ok := constValue(e)
+	if !ok {
+		// not computed here (a nested root, a range left and re-entered):
+		// anything the optimizer might still fold is kept away from
+		return Foldable(e) && hasOutOfRangeStep(e)
+	}
+	r := int64(math.Sqrt(float64(v)))
+	for r*r > v {
+		r--
+	}
+	for (r+1)*(r+1) <= v {
+		r++
+	}
+	return r*r == v
+}
+
+// hasOutOfRangeStep: a foldable tree whose value constValue could not follow.
+func hasOutOfRangeStep(e lang.Expr) bool {
+	_, ok := constValue(e)
+	return !ok
 }
 
 var arithOps = []string{"+", "-", "*", "/", "%", "**"}
@@ -168,7 +240,7 @@ func (e *ExprEnv) Expr(t *rapid.T, k lang.Kind, depth int) lang.Expr {
 			return lang.Unary{Op: "-", X: e.Expr(t, lang.KFloat, depth-1)}
 		case 4, 5:
 			x := e.Expr(t, num(), depth-1)
-			if e.NoSqrtFold && Foldable(x) {
+			if e.NoSqrtFold && FoldsToSquare(x) {
 				if e.SqrtFoldAvoided != nil {
 					*e.SqrtFoldAvoided++
 				}
@@ -260,7 +332,7 @@ func (e *ExprEnv) noTernary() *ExprEnv {
 func HasSqrtFold(e lang.Expr) bool {
 	switch x := e.(type) {
 	case lang.Unary:
-		if x.Op == "√" && Foldable(x.X) {
+		if x.Op == "√" && FoldsToSquare(x.X) {
 			return true
 		}
 		return HasSqrtFold(x.X)
